@@ -48,6 +48,9 @@ func readInterleaved(r *bufio.Reader) (isInterleaved bool, packet []byte, channe
 	return true, rtpBuf, channel, nil
 }
 
+// maxInterleavedPacketLen is the largest packet the 16 bit length field of an interleaved frame can describe
+const maxInterleavedPacketLen = 0xFFFF
+
 func packInterleaved(channel int, rtpPacket []byte) []byte {
 	ret := make([]byte, 4+len(rtpPacket))
 	ret[0] = Interleaved
